@@ -258,6 +258,10 @@ func (d *diff) getRange(r Range) (rr RangeResult) {
 		if !r.Elements {
 			return
 		}
+	} else {
+		// the range is not in our division: hash its elements, otherwise a non-empty range
+		// would look equal to a remote empty one
+		rr.Hash, _ = d.ranges.calcElementsHash(r.From, r.To)
 	}
 	el := d.sl.Find(&element{hash: r.From})
 	rr.Elements = make([]Element, 0, d.divideFactor)
